@@ -10,16 +10,19 @@ CONSTANTS MaxEv, MaxHead, Sim
 Kinds == {"fn", "cn", "gn"}
 Labels == {"a", "b", "c"}
 Open(k) == CASE k = "fn" -> "[^" [] k = "cn" -> "[#" [] OTHER -> "[?"
+RECURSIVE Cat(_), Rep(_, _)
+Cat(ss) == IF ss = <<>> THEN "" ELSE Head(ss) \o Cat(Tail(ss))
+Rep(c, n) == IF n = 0 THEN "" ELSE c \o Rep(c, n - 1)
 \* headings: title source, the label the documented rule derives (lower case, letters/digits and . _ - : kept), styles
 Heads == << [s |-> "Plain Title",        id |-> "plaintitle"],
             [s |-> "With, Punct! (x)",   id |-> "withpunctx"],
             [s |-> "Digits 123 v1.2",    id |-> "digits123v1.2"],
             [s |-> "Caf~E ~Uber",        id |-> "caf~E~Uber"],
-            [s |-> "Dash-ed_under:colon", id |-> "dash-ed_under:colon"] >>
+            [s |-> "Dash-ed_under:colon", id |-> "dash-ed_under:colon"],
+            \* long titles: the label has no length limit (140 one-byte characters; 70 two-byte characters = 140 bytes)
+            [s |-> "Long " \o Rep("abcdefghi ", 14), id |-> "long" \o Rep("abcdefghi", 14)],
+            [s |-> Rep("~E", 70), id |-> Rep("~E", 70)] >>
 Styles == {"atx", "atxc", "setext1", "setext2"}
-RECURSIVE Cat(_), Rep(_, _)
-Cat(ss) == IF ss = <<>> THEN "" ELSE Head(ss) \o Cat(Tail(ss))
-Rep(c, n) == IF n = 0 THEN "" ELSE c \o Rep(c, n - 1)
 HeadId(h) == IF h.manual THEN "man" \o ToString(h.t) ELSE Heads[h.t].id
 HeadSrc(h, lvl) ==
   LET ttl == Heads[h.t].s \o (IF h.manual THEN " [man" \o ToString(h.t) \o "]" ELSE "") IN
